@@ -296,8 +296,10 @@ def catalogue(files, HEADER, coq_str, coq_str_list, GenError):
     rows = []
     alone = []
     for mac, parts in P0.accent_macros.items():
+        # (unicodedata.lookup also resolves named sequences: the result may
+        # hold more than one character, e.g. L with tilde)
         try:
-            alone.append((mac, ord(unicodedata.lookup(' '.join(parts)))))
+            alone.append((mac, [ord(x) for x in unicodedata.lookup(' '.join(parts))]))
         except Exception:
             alone.append((mac, None))
         lst = []
@@ -305,21 +307,22 @@ def catalogue(files, HEADER, coq_str, coq_str_list, GenError):
             name = ('LATIN ' + ('SMALL' if c.islower() else 'CAPITAL')
                     + ' LETTER ' + c.upper() + ' WITH ' + parts[0])
             try:
-                lst.append((ord(c), ord(unicodedata.lookup(name))))
+                lst.append((ord(c), [ord(x) for x in unicodedata.lookup(name)]))
             except Exception:
                 pass
         rows.append((mac, lst))
-    out.append('Definition tbl_accent : list (str * list (N * N)) := [\n  %s\n].' % ';\n  '.join(
-        '(%s, [%s]%%N)' % (coq_str(m), '; '.join('(%d, %d)' % p for p in l))
+    out.append('Definition tbl_accent : list (str * list (N * list N)) := [\n  %s\n].' % ';\n  '.join(
+        '(%s, [%s]%%N)' % (coq_str(m), '; '.join('(%d, [%s])' % (a, '; '.join(map(str, b)))
+                                                for a, b in l))
         for m, l in rows))
-    out.append('Definition py_accent_char (mac : str) (c : char) : option char :=\n'
+    out.append('Definition py_accent_char (mac : str) (c : char) : option str :=\n'
                '  match assoc mac tbl_accent with\n  | Some l => '
                'match find (fun p => N.eqb (fst p) c) l with Some p => Some (snd p) '
                '| None => None end\n  | None => None end.')
-    out.append('Definition tbl_accent_alone : list (str * option N) := [%s].' % '; '.join(
-        '(%s, %s)' % (coq_str(m), 'None' if v is None else 'Some %d%%N' % v)
+    out.append('Definition tbl_accent_alone : list (str * option (list N)) := [%s].' % '; '.join(
+        '(%s, %s)' % (coq_str(m), 'None' if v is None else 'Some [%s]%%N' % '; '.join(map(str, v)))
         for m, v in alone))
-    out.append('Definition py_accent_alone (mac : str) : option char :=\n'
+    out.append('Definition py_accent_alone (mac : str) : option str :=\n'
                '  match assoc mac tbl_accent_alone with Some v => v | None => None end.')
     # language settings
     ls = []
